@@ -342,7 +342,7 @@ def fam_shape(tier, kind=R):
                        ("stack", [(), ()], [{}, {"axis": -1}]), ("stack", [(2,), (2,)], [{"axis": 1}, {"axis": -2}]),
                        ("vstack", [(2, 3), (1, 3)], [{}]), ("vstack", [(3,), (3,)], [{}]), ("vstack", [(), ()], [{}]),
                        ("hstack", [(2, 1), (2, 2)], [{}]), ("hstack", [(2,), (3,)], [{}]), ("hstack", [(), ()], [{}]), ("hstack", [(2, 1, 2), (2, 2, 2)], [{}]),
-                       ("column_stack", [(2,), (2,)], [{}]), ("column_stack", [(2, 1), (2, 2)], [{}]), ("column_stack", [(2,), (2, 2)], [{}]),
+                       ("column_stack", [(2,), (2,)], [{}]), ("column_stack", [(1,), (1,)], [{}]), ("column_stack", [(1,), (1, 2)], [{}]), ("column_stack", [(2, 1), (2, 2)], [{}]), ("column_stack", [(2,), (2, 2)], [{}]),
                        ("append", [(2, 3), (1, 3)], [{}, {"axis": 0}]), ("append", [(2,), (3,)], [{}, {"axis": 0}, {"axis": -1}]), ("append", [(2, 1), (2, 2)], [{"axis": 1}, {"axis": -1}])]:
         for kw in kws:
             for k in (0, 1):
@@ -368,6 +368,10 @@ def fam_shape(tier, kind=R):
         yield c("array", "np.array(x,ndmin=%d)" % nm, lambda np, x, _n=nm: np.array(x, ndmin=_n), [kind(2, 2)])
         yield c("array", "np.array(scalar,ndmin=%d)" % nm, lambda np, x, _n=nm: np.array(x, ndmin=_n), [sc])
         yield c("array", "np.array([x,y],ndmin=%d)" % nm, lambda np, x, y, _n=nm: np.array([x, y], ndmin=_n), [kind(2), kind(2)], 0)
+    for shp in [(1, 3), (3, 1), (1,), (1, 1)]:
+        for nm in (2, 3):
+            # the argument has length-1 axes of its own besides the ones ndmin prepends
+            yield c("array", "np.array(x,ndmin=%d) on shape %r" % (nm, shp), lambda np, x, _n=nm: np.array(x, ndmin=_n), [kind(*shp)])
     yield c("array", "np.array(x,copy=True)", lambda np, x: np.array(x, copy=True), [kind(2)])
     yield c("asarray", "np.asarray(x)", lambda np, x: np.asarray(x), [kind(2)])
     yield c("r_", "np.r_[x,y]", lambda np, x, y: np.r_[x, y], [kind(2), kind(3)], 0)
@@ -1039,6 +1043,12 @@ def nested_grid(tier):
     n("inner y * (y > outer x) with floor_divide", lambda np, x: x * egrad(lambda y: y * np.floor_divide(y + 10.0, np.abs(x) + 1.0))(x), lambda np, x: x * np.floor_divide(x + 10.0, np.abs(x) + 1.0), [R(2)])
     n("inner where(isclose(y, outer x), y, 2y)", lambda np, x: x * egrad(lambda y: np.where(np.isclose(y, x), y, 2.0 * y))(x + 1.0), lambda np, x: x * 2.0, [R(2)])
     n("inner y * sign(y - outer x) fwd", lambda np, x: x * dfw(lambda y: y * np.logical_or(y, x), x + 1.0), lambda np, x: x * 1.0, [R(2)])
+    # an operation with its own derivative rule built by a function transformer (checkpoint) inside an inner derivative:
+    # its recomputed local derivative must stay a function of the enclosing level's variable
+    ck_sin = lambda np: autograd.checkpoint(lambda y: np.sin(y))
+    n("inner derivative through a checkpointed segment (rev)", lambda np, x: x * egrad(lambda y: ck_sin(np)(y) * y)(x), lambda np, x: x * (np.cos(x) * x + np.sin(x)), [R(2)])
+    n("checkpointed segment whose arguments belong to different levels", lambda np, x: egrad(lambda y: autograd.checkpoint(lambda a, b: np.sin(a) * b * b)(x, y))(2.0 * x), lambda np, x: np.sin(x) * 4.0 * x, [R(2)])
+    n("second derivative of x^2 * checkpoint(sin)(x)", lambda np, x: egrad(lambda y: y * y * ck_sin(np)(y))(x), lambda np, x: 2.0 * x * np.sin(x) + x * x * np.cos(x), [R(2)])
     n("two inner derivatives summed", lambda np, x: egrad(lambda y: x * y)(x) + dfw(lambda y: y * y * x, x), lambda np, x: x + 2 * x * x, [R(2)])
     return _uniq(out)
 
@@ -1191,6 +1201,9 @@ def container_grid(tier):
     c("nested tuple, same leaf used twice", lambda np, t: np.sum(t[0][0] * t[0][0] * t[1]) + np.sum(t[0][1]), [((R(2), R(2)), R(2))])
     c("empty containers inside", lambda np, t: np.sum(t[1][0] ** 2), [((), [R(2)], {})])
     c("tuple slice", lambda np, t: np.sum(t[1:][0]) * 2.0 + np.sum(t[:2][1] ** 2), [(R(2), R(2), R(2))])
+    c("tuple reversed slice t[::-1]", lambda np, t: sum(np.sum(e * float(i + 1)) for i, e in enumerate(t[::-1])), [(R(2), R(2), R(2))])
+    c("list slices with negative steps and open ends", lambda np, l: np.sum(l[::-2][0] * l[::-2][1]) + np.sum(l[2::-1][0] * 3.0) + np.sum(l[:0:-1][1] * l[-1:0:-2][0]), [[R(2), R(2), R(2), R(2)]])
+    c("tuple slice with negative bounds", lambda np, t: np.sum(t[-2:][0] * t[:-1][1]) + np.sum(t[-3:-1][1] ** 2), [(R(2), R(2), R(2))])
     c("tuple negative index", lambda np, t: np.sum(t[-1] * t[-2]), [(R(2), R(2), R(2))])
     c("list concatenation + iteration", lambda np, l, k: sum(np.sum(e * float(i + 1)) for i, e in enumerate(l + [k])), [[R(2), R(2)], R(2)])
     c("reflected concatenation", lambda np, l, k: sum(np.sum(e * float(i + 1)) for i, e in enumerate((k,) + l)), [(R(2), R(2)), R(2)])
